@@ -387,6 +387,14 @@ func genKindSwitch(c *core.Ctx) {
 				}
 				if call, ok := astx.Unparen(r).(*ast.CallExpr); ok && isMethodNamed(info, call, "Ident") && len(call.Args) == 1 {
 					collect(as, []ast.Expr{r})
+				} else if sv, isC := astx.ConstString(info, r); isC {
+					// a method name chosen into a local ("CallClientStream") and printed later
+					for _, wd := range []string{"ClientStream", "ServerStream", "BidiStream", "Unary"} {
+						if strings.Contains(sv, wd) {
+							collect(as, []ast.Expr{r})
+							break
+						}
+					}
 				}
 			}
 			return true
